@@ -3,6 +3,9 @@
 HOOK_COMMITS = ['afbbdb338']
 
 ENGINES = [
+    dict(name='E1-DBE', path='engine/choice.hpp', serves_properties=['C01', 'C02', 'C03', 'C04', 'C08', 'C15', 'C16', 'C17', 'C20'],
+         kind_free_text='choice oracle owning every primitive random draw (hook H1), every state/control sample and the termination index; deviation-bounded explorer: all executions '
+                        'with <= D departures from a fixed default answer stream among the first N choice points, plus full products over the first d points'),
     dict(name='E3-LPE', path='harness/ (per-property lattice products)', serves_properties=['C05', 'C06', 'C07', 'C08', 'C09', 'C14', 'C15', 'C16'],
          kind_free_text='exhaustive enumeration of full Cartesian products of boundary-value alphabets (inputs of pure functions, validity bit-vectors, '
                         'truncation offsets) against the real library code with reference oracles'),
@@ -12,6 +15,8 @@ ENGINES = [
 ]
 
 HARNESSES = {
+    'C09': [dict(name='c09_copy', src=['C09_copy.cpp'], flavour='asan')],
+    'C08': [dict(name='c08_bounds', src=['C08_bounds.cpp'], flavour='asan')],
     'C07': [dict(name='c07_interp', src=['C07_interp.cpp'], flavour='asan')],
     'C06': [dict(name='c06_metric', src=['C06_metric.cpp'], flavour='asan')],
     'C05': [dict(name='c05_motion', src=['C05_motion.cpp'], flavour='asan')],
@@ -31,6 +36,20 @@ LPE_NOTE = ('Trusted: the harness oracles (independent long-double reference dis
             'Bounded-exhaustive over the lattice alphabets listed in evidence.bounds; silent about real values off the lattice.')
 
 PROPERTY_META = {
+    'C08': dict(
+        deadline_quick=300, deadline_thorough=1500, engine='E1-DBE', design_ref='5/C08',
+        technique='exhaustive products of boundary-value inputs for enforceBounds; for every sampler call, full product of oracle answers over the first draws plus all <=2-deviation answer streams (RNG hook H1)',
+        level_text='enforceBounds on 27 space configurations over lattice states and products of wild per-coordinate alphabets (in bounds afterwards, unchanged if in bounds, idempotent). '
+                   'Every default/subspace/compound/wrapper sampler x uniform/near/Gaussian x centres x distance scales, with every primitive random draw answered by the enumerated oracle '
+                   '(u=0, u=1-2^-53, |z|=8 included); six valid-state samplers on an obstacle world with attempts 1,2,5.',
+        level_note=LPE_NOTE + ' Randomness is owned through hook H1 (RNG primitives), so the library arithmetic on top of the primitives is what runs.'),
+    'C09': dict(
+        deadline_quick=300, deadline_thorough=1500, engine='E3-LPE', design_ref='5/C09',
+        technique='exhaustive enumeration of state lattices, of all small planner-data graphs, and of every truncation offset / foreign signature / foreign marker of stored archives',
+        level_text='Every lattice state of 27 space configurations through copy, clone, serialize/deserialize, reals and ScopedState into differently initialised targets; partial copies between all '
+                   'ordered pairs of related spaces; StateStorage over all lists of <=3 states; PlannerData (geometric and control) over all graphs on <=2 (quick) / <=3 (thorough) vertices incl. '
+                   'start+goal vertices, both marking orders and graphs after removeVertex; faults: every truncation offset of curated archives, every foreign space signature, every foreign marker.',
+        level_note=LPE_NOTE + ' Foreign-archive loads run in forked children: an escaped exception or allocator abort counts as a loud rejection; only silent acceptance is a violation.'),
     'C06': dict(
         deadline_quick=240, deadline_thorough=1500, engine='E3-LPE', design_ref='5/C06',
         technique='exhaustive enumeration of all ordered pairs and triples of a boundary-value state lattice per space configuration against the real distance()',
